@@ -109,6 +109,7 @@ func (p *Path) addPC(c *Term) {
 }
 
 var checkIV = os.Getenv("VX_CHECK_IV") != ""
+var forkProf = os.Getenv("VX_FORKPROF") != ""
 
 // ivDecide consults the interval pre-solver.
 func (p *Path) ivDecide(c *Term) (bool, bool) {
@@ -196,6 +197,9 @@ func (p *Path) Branch(c *Term) bool {
 			ov = 0
 		}
 		p.nForks++
+		if forkProf {
+			p.ex.noteFork(p.where())
+		}
 		p.ex.push(WorkItem{prefix: p.cloneDecisions(Decision{'b', ov}), model: m})
 	case "unsat":
 		p.s.PopCheck()
@@ -248,6 +252,9 @@ func (p *Path) Concretize(t *Term) uint64 {
 			m := p.s.GetModel(p.vars)
 			p.s.PopCheck()
 			p.nForks++
+			if forkProf {
+				p.ex.noteFork("concretize " + p.where())
+			}
 			p.ex.push(WorkItem{prefix: p.cloneDecisions(Decision{'n', k}), model: m})
 		case "unsat":
 			p.s.PopCheck()
